@@ -42,6 +42,9 @@ import (
 	"github.com/snapcore/snapd/snap"
 )
 
+// watchdog only (the machine is shared and at times very loaded)
+const verifMultiSettleTimeout = 90 * time.Second
+
 type verifMultiSnapOp struct {
 	Snap string `json:"snap"`
 	Rev  int    `json:"rev"`
@@ -461,11 +464,18 @@ func (s *verifMultiSuite) runMulti(c *check.C, op *verifMultiOp) {
 	s.multiEmit(map[string]interface{}{"ev": "MRequest", "op": op, "ok": true, "graph": graph, "extra": extra, "strays": strays}, true)
 
 	st.Unlock()
-	err = s.o.Settle(30 * time.Second)
+	err = s.o.Settle(verifMultiSettleTimeout)
 	st.Lock()
 	if err != nil {
+		// watchdog: say what was still pending
+		pending := []string{}
+		for i, t := range s.mTasks {
+			if !t.Status().Ready() {
+				pending = append(pending, fmt.Sprintf("%d:%s:%s", i+1, t.Kind(), t.Status()))
+			}
+		}
 		s.mChg = nil
-		s.evErr = fmt.Errorf("case %s: settle: %v", s.caseID, err)
+		s.evErr = fmt.Errorf("case %s: settle: %v; change %s, pending tasks %v", s.caseID, err, chg.Status(), pending)
 		return
 	}
 	fired := []string{}
